@@ -114,7 +114,7 @@ def run(rep, tier, seed):
             v = o["v"][0]["v"]
             if all(b == 0 for b in v[4:]):
                 result = v[0] + 256 * v[1] + 65536 * v[2] + 16777216 * v[3]
-        recs.append({"id": "lim-" + t, "kind": "limit", "opname": op, "k": k, "needed": needed, "how": r.get("how"),
+        recs.append({"id": "lim-" + t, "kind": "limit", "opname": op, "opn": vmtrace.opc()[op], "k": k, "needed": needed, "how": r.get("how"),
                      "result": result, "want": want, "allowed": allowed, "msg": r.get("msg") or ""})
     verdicts, tres = core.tlc_validate("CodecTrace", recs, workers=2)
     rep.add_tlc(tres)
